@@ -87,14 +87,14 @@ Section Build.
     let n := v2muls (mkV2 (vy ba) (- vx ba)) side in
     let mid := v2muls (v2add a b) half in
     let dMid := v2len (v2sub mid a) in
-    let dCenter := osqrt O (radius * radius - dMid * dMid) in
+    let dCenter := osqrt O (omax O (o0 O) (radius * radius - dMid * dMid)) in
     v2add mid (v2muls n dCenter).
   Definition arc_dtheta (a b : V2) (r : T) (facets : Z) : T :=
     let side := sign r in
     let c := arc_centre a b r in
     let ac := v2normalize (v2sub a c) in
     let bc := v2normalize (v2sub b c) in
-    (- side) * oacos O (v2dot ac bc) / ofZ O facets.
+    (- side) * oacos O (clamp (v2dot ac bc) (- o1 O) (o1 O)) / ofZ O facets.
   Definition arc_geom (a b : V2) (r : T) (facets : Z) : list V2 :=
     let c := arc_centre a b r in
     let m := rotate (arc_dtheta a b r facets) in
